@@ -213,16 +213,10 @@ func (t *tr) freshVsHeap(R, r string, heaps map[string]string) {
 func (t *tr) newRef(R string) string {
 	r := t.fresh("alloc", "Int")
 	t.assume("", fmt.Sprintf("(and (> %s 0) (not (existed %s)))", r, r))
-	if len(t.ptrs) > 0 {
-		var sb strings.Builder
-		sb.WriteString("(and")
-		for _, p := range t.ptrs {
-			fmt.Fprintf(&sb, " (distinct %s %s)", r, p)
-		}
-		sb.WriteString(")")
-		t.assume("", sb.String())
-	}
-	t.ptrs = append(t.ptrs, r)
+	// newer than every object known so far
+	t.assume("", fmt.Sprintf("(> (born %s) %d)", r, t.epoch))
+	t.epoch++
+	t.regPtr(r)
 	return r
 }
 
@@ -234,7 +228,7 @@ func (t *tr) notePtr(R, term string, ty types.Type) {
 	if ref == "" {
 		return
 	}
-	t.ptrs = append(t.ptrs, ref)
+	t.regPtr(ref)
 }
 
 func (t *tr) loadedPtrFacts(R, term string, ty types.Type, src ssa.Value) {
@@ -252,7 +246,7 @@ func (t *tr) loadedPtrFacts(R, term string, ty types.Type, src ssa.Value) {
 		}
 		t.assume(R, fmt.Sprintf("(distinct %s %s)", ref, a.ref))
 	}
-	t.ptrs = append(t.ptrs, ref)
+	t.regPtr(ref)
 }
 
 // ---------------------------------------------------------------- block translation
@@ -644,7 +638,13 @@ func (t *tr) unop(x *ssa.UnOp, R string, heaps map[string]string) {
 			t.typeFacts(R, ns[0], x.Type())
 			t.loadedPtrFacts(R, ns[0], x.Type(), x.X)
 			if ref := refOf(lv[0], ns[0]); ref != "" && t.H(heaps, "H_"+lv[0]) == t.heapV0("H_"+lv[0]) {
-				t.assume("", fmt.Sprintf("(existed %s)", ref))
+				// the entry heap is closed under reachability: what an object that existed at entry refers to existed at entry
+				// (not so for the fields of an object allocated since - e.g. by a pure callee - which live in the same version)
+				if _, isGlobal := x.X.(*ssa.Global); isGlobal {
+					t.assume("", fmt.Sprintf("(existed %s)", ref))
+				} else {
+					t.assume("", fmt.Sprintf("(=> (existed (lref %s)) (existed %s))", p, ref))
+				}
 			}
 			if g, isGlobal := x.X.(*ssa.Global); isGlobal {
 				t.globalFacts(g, ns[0], lv[0])
